@@ -59,6 +59,8 @@ type world struct {
 	hist          []string
 	flags         map[string]bool
 	lVerifiedNow  bool
+	// plaintext pair-verify messages of the legitimate controller as an eavesdropper sees them
+	sniffedM1, sniffedM3 []byte
 }
 
 func (w *world) canary() string {
@@ -279,6 +281,17 @@ func (w *world) protectedRequest(t *rapid.T) request {
 	}
 }
 
+// recorder lets the "eavesdropper" see the plaintext pair-verify messages of the legitimate controller.
+type recorder struct {
+	inner refctl.Transport
+	sent  [][]byte
+}
+
+func (r *recorder) Do(method, path, ctype string, body []byte) (*refctl.Response, error) {
+	r.sent = append(r.sent, append([]byte{}, body...))
+	return r.inner.Do(method, path, ctype, body)
+}
+
 func (w *world) legitEnsure() error {
 	if w.lconn != nil {
 		return nil
@@ -287,9 +300,15 @@ func (w *world) legitEnsure() error {
 	if err != nil {
 		return fmt.Errorf("INFRA: dial: %v", err)
 	}
-	if err := refctl.VerifyAndSecure(cl, w.L, w.accLTPK, append([]byte{byte(len(w.hist))}, w.seed...)); err != nil {
+	rec := &recorder{inner: cl}
+	shared, err := refctl.PairVerify(rec, w.L, w.accLTPK, append([]byte{byte(len(w.hist))}, w.seed...))
+	if err != nil {
 		cl.Close()
 		return fmt.Errorf("the legitimate controller cannot verify: %v", err)
+	}
+	cl.Secure(shared)
+	if len(rec.sent) == 2 {
+		w.sniffedM1, w.sniffedM3 = rec.sent[0], rec.sent[1]
 	}
 	w.lconn = cl
 	w.lsubs = map[uint64]bool{}
@@ -481,6 +500,33 @@ func runMachine(t *rapid.T, seed []byte) (w *world) {
 			if w.lVerifiedNow && rq.protected {
 				w.flags["nontrivial"] = true
 			}
+			w.dropAttacker(i)
+		},
+		"attacker-replays-sniffed-verify": func(t *rapid.T) {
+			if w.sniffedM1 == nil {
+				t.Skip("nothing sniffed yet")
+			}
+			i := pick()
+			w.dropAttacker(i)
+			a, err := w.attacker(i)
+			checkErr(t, w, err)
+			note(fmt.Sprintf("att%d replays the legitimate controller's pair-verify messages verbatim", i))
+			before := w.snap()
+			what := "unverified connection, verbatim replay of a sniffed genuine pair-verify exchange"
+			r1, e1 := a.cl.Do("POST", "/pair-verify", refctl.ContentTLV8, w.sniffedM1)
+			checkErr(t, w, judgeLenient(what+" (start)", r1, e1, a.cl))
+			if e1 == nil {
+				r2, e2 := a.cl.Do("POST", "/pair-verify", refctl.ContentTLV8, w.sniffedM3)
+				checkErr(t, w, judgeLenient(what+" (finish)", r2, e2, a.cl))
+				if e2 == nil && r2.Status == 200 {
+					if m4, perr := refctl.ParseVerifyM4(r2.Body); perr == nil && m4.State == 4 && !m4.HasError {
+						checkErr(t, w, fmt.Errorf("%s was answered with success: the connection counts as verified", what))
+					}
+				}
+			}
+			checkErr(t, w, w.unchanged(before, what))
+			a.failedV = true
+			w.flags["replayed-sniffed-verify"] = true
 			w.dropAttacker(i)
 		},
 		"attacker-close": func(t *rapid.T) {
